@@ -159,3 +159,41 @@ def write_evidence(pid, ev):
     p = os.path.join(VERIF, 'evidence', pid + '.json')
     json.dump(ev, open(p, 'w'), indent=1, sort_keys=True)
     return p
+
+
+def record_mbt(vh, seed, chunks, traces_per_chunk, depth, out_dir, wd, keep_every=8):
+    """spec -> code: `tlc -simulate` on spec/MC_Node.tla prints behaviours (event sequences chosen by the specification's
+    environment); the harness' script driver executes them on a real node. Returns [(trace_file, behaviours_file)]."""
+    import mc, random
+    rnd = random.Random(seed)
+    fams = [dict(me=1, family=('core', 'junk', 'recovery', 'tx', 'app', 'equiv')),
+            dict(me=2, family=('core', 'junk', 'recovery', 'tx', 'app')),
+            dict(me=1, amev=True, family=('core', 'junk', 'recovery', 'tx', 'app')),
+            dict(me=3, amev=True, family=('core', 'junk', 'tx', 'app', 'equiv')),
+            dict(me=2, dyn=True, family=('core', 'tx', 'recovery')),
+            dict(me=1, dyn=True, amev=True, family=('core', 'tx', 'junk')),
+            dict(me=2, watch=True, family=('core', 'junk', 'recovery')),
+            dict(me=1, n=7, family=('core', 'junk', 'tx'))]
+    def one(c):
+        fam = fams[(seed + c) % len(fams)]
+        item = mc.node_cfg('sim%d' % c, invs=[], emit=True, emitlen=depth, maxview=1 + (c % 2), **fam)
+        r = mc.run_tlc(item, wd, workers=1, cap=900, simulate=dict(num=traces_per_chunk, depth=depth, seed=seed * 1000 + c))
+        bf = os.path.join(out_dir, 'behaviours-%d-%d.ndjson' % (seed, c))
+        n = 0
+        with open(bf, 'w') as o:
+            k = 0
+            for ln in r['stdout'].splitlines():
+                if ln.startswith('<<"BEHAVIOUR", "'):
+                    k += 1
+                    if k % keep_every:
+                        continue
+                    o.write(json.loads(ln.strip()[len('<<"BEHAVIOUR", '):-2]) + '\n'); n += 1
+        if n == 0:
+            raise Infra('TLC simulation produced no behaviour:\n' + r['stdout'][-1500:])
+        tf = os.path.join(out_dir, 'script-%d-%d.ndjson' % (seed, c))
+        rr = sh([vh, 'script', '-in', bf, '-runs', '0', '-out', tf], timeout=1800)
+        if rr.returncode != 0:
+            raise Infra('script driver failed: ' + rr.stdout[-1500:])
+        return tf, bf, n
+    with ThreadPoolExecutor(max_workers=NCPU) as ex:
+        return list(ex.map(one, range(chunks)))
